@@ -38,6 +38,9 @@ def main():
         if a.prop in ("C09", "C10", "C12", "C17"):
             import servercheck
             return servercheck.run(a.prop, a.tier)
+        if a.prop in ("C08", "C13"):
+            import clientcheck
+            return clientcheck.run(a.prop, a.tier)
         print("unknown property %s" % a.prop)
         return 2
     except MachineryError as e:
